@@ -24,8 +24,12 @@ def rich_rows(rng, n, base=0x480000):
         elif r() < 0.5:
             body.append(F.df4(0, 0, 0, F.ac13_q1(rng.choice([40, 2047, 1000])), a))
         if r() < 0.7:
-            body.append(F.df17(5, a, F.me_velocity(rng.choice([1, 2]), 0, 0, 0, rng.randrange(2), rng.choice([1, 2, 500, 1023]), rng.randrange(2),
-                                                   rng.choice([1, 2, 500, 1023]), 0, rng.randrange(2), rng.choice([1, 2, 100, 511]), rng.randrange(2), rng.randrange(128))))
+            # component / rate fields of 0 ("no information") included: a source mark may be recorded while the value is unknown
+            body.append(F.df17(5, a, F.me_velocity(rng.choice([1, 2, 3]), 0, 0, 0, rng.randrange(2), rng.choice([0, 1, 2, 500, 1023]), rng.randrange(2),
+                                                   rng.choice([0, 1, 2, 500, 1023]), 0, rng.randrange(2), rng.choice([0, 1, 2, 100, 511]), rng.randrange(2), rng.randrange(128))))
+        if r() < 0.25:
+            # a surface squitter, ground-track status bit 0 or 1
+            body.append(F.df17(5, a, F.me_surface(rng.randrange(5, 9), rng.randrange(128), rng.randrange(2), rng.randrange(128), 0, rng.randrange(2), *gen.rand_cpr(rng))))
         if r() < 0.5:
             body.append(F.df20(0, 0, 0, F.ac13_q1(1000), F.bds40(rng.randrange(1, 4096), rng.randrange(1, 4096), rng.randrange(1, 4096), 0, 1, rng.randrange(4)), a))
         if r() < 0.5:
